@@ -6,7 +6,20 @@ package meta
 
 import (
 	"sync/atomic"
+	"unicode/utf8"
 )
+
+// nextPosAfterEmptyMatch returns the position at which the search must resume
+// after an empty match at pos. Like stdlib regexp, it steps over one whole
+// UTF-8 code point (an invalid byte counts as width 1), never into the middle
+// of a multi-byte rune.
+func nextPosAfterEmptyMatch(haystack []byte, pos int) int {
+	if pos < len(haystack) && haystack[pos] >= utf8.RuneSelf {
+		_, width := utf8.DecodeRune(haystack[pos:])
+		return pos + width
+	}
+	return pos + 1
+}
 
 // FindSubmatch returns the first match with capture group information.
 // Returns nil if no match is found.
@@ -249,7 +262,7 @@ func (e *Engine) findAllIndicesLoop(haystack []byte, n int, results [][2]int) []
 		// - "a*" on "ab" returns [[0 1] [2 2]], not [[0 1] [1 1] [2 2]]
 		//nolint:gocritic // badCond: intentional - checking empty match (start==end) at lastMatchEnd
 		if start == end && start == lastMatchEnd {
-			pos++
+			pos = nextPosAfterEmptyMatch(haystack, pos)
 			if pos > len(haystack) {
 				break
 			}
@@ -266,8 +279,8 @@ func (e *Engine) findAllIndicesLoop(haystack []byte, n int, results [][2]int) []
 		// Move position past this match
 		switch {
 		case start == end:
-			// Empty match: advance by 1 to avoid infinite loop
-			pos = end + 1
+			// Empty match: advance by one code point to avoid infinite loop
+			pos = nextPosAfterEmptyMatch(haystack, end)
 		case end > pos:
 			pos = end
 		default:
@@ -341,7 +354,7 @@ func (e *Engine) Count(haystack []byte, n int) int {
 		// Skip empty matches at lastNonEmptyEnd (stdlib behavior)
 		//nolint:gocritic // badCond: intentional - checking empty match (start==end) at lastNonEmptyEnd
 		if start == end && start == lastNonEmptyEnd {
-			pos++
+			pos = nextPosAfterEmptyMatch(haystack, pos)
 			if pos > len(haystack) {
 				break
 			}
@@ -358,8 +371,8 @@ func (e *Engine) Count(haystack []byte, n int) int {
 		// Move position past this match
 		switch {
 		case start == end:
-			// Empty match: advance by 1 to avoid infinite loop
-			pos = end + 1
+			// Empty match: advance by one code point to avoid infinite loop
+			pos = nextPosAfterEmptyMatch(haystack, end)
 		case end > pos:
 			pos = end
 		default:
@@ -413,7 +426,7 @@ func (e *Engine) FindAllSubmatch(haystack []byte, n int) []*MatchWithCaptures {
 		// Skip empty matches at the end of previous non-empty match (stdlib behavior)
 		//nolint:gocritic // badCond: intentional - checking empty match at lastMatchEnd
 		if matchStart == matchEnd && matchStart == lastMatchEnd {
-			pos++
+			pos = nextPosAfterEmptyMatch(haystack, pos)
 			if pos > len(haystack) {
 				break
 			}
@@ -430,7 +443,7 @@ func (e *Engine) FindAllSubmatch(haystack []byte, n int) []*MatchWithCaptures {
 		// Move position past this match
 		switch {
 		case matchStart == matchEnd:
-			pos = matchEnd + 1
+			pos = nextPosAfterEmptyMatch(haystack, matchEnd)
 		case matchEnd > pos:
 			pos = matchEnd
 		default:
